@@ -19,6 +19,13 @@ def mantissa_patterns(dtype, n=64, seed=0):
             (1 << (w - 2)), 3 << (w - 2), int("01" * 32, 2) & full, int("10" * 32, 2) & full,
             int(0.41421356237309515 * (1 << w)), int(0.6180339887498949 * (1 << w)),
             1 << (w // 2), (1 << (w // 2)) - 1, (1 << (w // 2)) + 1, full ^ (1 << (w // 2))]
+    # half-width significands 1 + 2**-s, (2**s - 1) left aligned, 1 + 2**-s + 2**-(s+1): the shapes
+    # on which splitters / Dekker products are tight
+    for s_ in sorted({(w + 1) // 2 - 1, (w + 1) // 2, (w + 1) // 2 + 1, (w + 2) // 2 + 1}):
+        if 0 < s_ < w:
+            pats += [1 << (w - s_), ((1 << s_) - 1) << (w - s_), (3 << (w - s_ - 1)) if s_ + 1 <= w else 0, (1 << (w - s_)) | 1]
+    s0 = (w + 2) // 2  # ceil(p / 2)
+    pats = [0, 1 << (w - s0), full, 1, (1 << (w - s0)) | 1, ((1 << s0) - 1) << (w - s0), 1 << (w - 1)] + pats
     out = []
     for p_ in pats:
         if p_ not in out and 0 <= p_ <= full:
